@@ -52,7 +52,13 @@ fn run_all(kind: &str, input: &str, outdir: &str, threads: usize, budget: Durati
                         current.lock().unwrap()[t] = Some((i, Instant::now()));
                         let sc: Value = serde_json::from_str(&lines[i]).expect("scenario json");
                         let evs = match kind.as_str() {
-                            "exchange" => exchange::run(&sc),
+                            "exchange" => match util::gs(&sc, "kind") {
+                                "framing" => match genx::framing_row_to_scenario(&sc) {
+                                    Some(x) => exchange::run(&x),
+                                    None => vec![],
+                                },
+                                _ => exchange::run(&sc),
+                            },
                             _ => panic!("unknown runner {}", kind),
                         };
                         for e in evs {
